@@ -112,6 +112,35 @@ def report_sessions(chk, rows, n, seed, sig_kind='constraint-verdict'):
             sig = {'kind': sig_kind, 'clause': m['clause'], 'ckind': m.get('kind'), 'coltype': r['col']['t'], 'variant': variant,
                    'merged': True}
             chk.violation(sig, dict(m, column=r['col'], variant=variant, how='verify_df on a field carrying one constraint of every kind'))
+    # frames of two or three different columns, each with part of its constraints
+    bylen = {}
+    for r in rows:
+        bylen.setdefault(len(r['col']['v']), []).append(r)
+    mtasks = []
+    for i in range(4 * n):
+        L = rnd.choice([k for k, v in bylen.items() if len(v) >= 3 and k > 0] or [0])
+        if L == 0:
+            break
+        rs = rnd.sample(bylen[L], rnd.choice([2, 3]))
+        if rnd.random() < 0.5:
+            strs = [r for r in bylen[L] if r['col']['t'] == 'string']
+            if len(strs) >= 2:
+                rs[:2] = rnd.sample(strs, 2)       # (two string fields: lengths, values and expressions side by side)
+        mtasks.append((rs, [rnd.choice(cl.variants_for(r['col'])) for r in rs],
+                       [rnd.choice(range(len(cl.STRING_POOLS))) if r['col']['t'] == 'string' else 0 for r in rs], seed * 100003 + i))
+    with mp.Pool(16, initializer=cr.init_worker, initargs=(common.REPO,)) as pool:
+        mres = pool.map(vr.mixed_frame, mtasks, chunksize=8)
+    nmixed = 0
+    for (rs, vs_, ps_, _), out in zip(mtasks, mres):
+        if out['error']:
+            chk.machinery_error('mixed-frame worker failed: %s' % out['error'])
+            continue
+        nmixed += out['n']
+        for m in out['mism']:
+            sig = {'kind': sig_kind, 'clause': m['clause'], 'ckind': m.get('kind'), 'coltype': m['column']['t'], 'mixed_frame': True}
+            chk.violation(sig, dict(m, how='verify_df on a frame of two or three different columns, each carrying part of its constraints'))
+    chk.coverage['mixed_frame_verifications'] = nmixed
+    chk.coverage['replayed_cases'] += nmixed
     res, rejected = trace.validate('Trace_VerifyReport', 'Trace_VerifyReport.cfg', events, name='verify_report', workers=4)
     chk.add_tlc(res)
     chk.coverage['traces_validated_against_impl'] += len(tasks)
